@@ -58,6 +58,9 @@ def reference(stream: bytes):
     return msgs, ends, None, off
 
 
+_FOREIGN = refcodec.enc_someip(0x7A7A, 0x0B0B, 0x0C0C, 0x0D0D, 0x0E, 0x02, 0, b"foreign message")
+
+
 class Run:
     def __init__(self, use_wrapper):
         self.loop = VLoop().install()
@@ -89,6 +92,15 @@ class Run:
     def feed(self, data):
         if data:
             self.reader.feed_data(data)
+        self.loop.settle()
+        # between two chunks of this stream the process decodes something else (a datagram of its SD endpoint, the
+        # header of a message on another connection): one decoder's progress is its own
+        hdr.SOMEIPHeader.parse(_FOREIGN)
+        other = asyncio.StreamReader(limit=2 ** 16, loop=self.loop)
+        other.feed_data(_FOREIGN[:20])
+        t = self.loop.create_task(hdr.SOMEIPHeader.read(other))
+        self.loop.settle()
+        t.cancel()
         self.loop.settle()
 
     def eof(self):
